@@ -4,6 +4,7 @@
 mod c01;
 mod c02;
 mod c03;
+mod c04;
 mod c05;
 mod c06;
 mod c07;
@@ -13,6 +14,7 @@ mod c10;
 mod c11;
 mod c12;
 mod c17;
+mod c20;
 mod stack;
 mod c14dec;
 mod tcpmodel;
@@ -27,6 +29,7 @@ const CHECKS: &[(&str, &str, RunFn, ReplayFn)] = &[
     ("C01", "model_checking", c01::run, c01::replay),
     ("C02", "model_checking", c02::run, c02::replay),
     ("C03", "model_checking", c03::run, c03::replay),
+    ("C04", "model_checking", c04::run, c04::replay),
     ("C05", "model_checking", c05::run, c05::replay),
     ("C06", "model_checking", c06::run, c06::replay),
     ("C07", "model_checking", c07::run, c07::replay),
@@ -36,6 +39,7 @@ const CHECKS: &[(&str, &str, RunFn, ReplayFn)] = &[
     ("C11", "model_checking", c11::run, c11::replay),
     ("C12", "model_checking", c12::run, c12::replay),
     ("C17", "model_checking", c17::run, c17::replay),
+    ("C20", "model_checking", c20::run, c20::replay),
     // decoder part of C14, runnable on its own; ./check C14 runs the vapp binary, which includes it
     ("C14dec", "exploration", c14dec::run, c14dec::replay),
 ];
